@@ -377,6 +377,21 @@ func (r *DRun) invariants(at int, hostile bool) {
 	if b.Off != int64(len(r.model.Out)) {
 		r.failf(at, "off", "Off", "Off=%d but %d bytes were written since Init/Reset", b.Off, len(r.model.Out))
 	}
+	// the window is also addressable through ByteAtEnd: offsets 1, k and one
+	// in between must give the bytes of the reference stream; offsets outside
+	// of the data (0, len+1, negative, huge) must not panic
+	n := len(r.model.Out)
+	for _, off := range []int{1, k, 1 + (at*7)%(k+1), 0, len(b.Data) + 1, -1, -1 << 62, 1<<62 + at} {
+		var c byte
+		if pv := call(func() { c = b.ByteAtEnd(off) }); pv != nil {
+			r.failf(at, "panic", "panic-ByteAtEnd", "ByteAtEnd(%d) with %d bytes buffered: %s", off, len(b.Data), fmtPanic(pv))
+			return
+		}
+		if off >= 1 && off <= k && c != r.model.Out[n-off] {
+			r.failf(at, "window-lost", "ByteAtEnd", "ByteAtEnd(%d) = %#x, the byte %d positions before the end of the stream is %#x", off, c, off, r.model.Out[n-off])
+			return
+		}
+	}
 }
 
 func errIs(err error, s string) bool { return err != nil && err.Error() == s }
